@@ -82,6 +82,7 @@ def main(argv=None):
     ap.add_argument("--only-bounded", action="store_true")
     args = ap.parse_args(argv)
     prop = args.prop.upper()
+    os.environ["VERIF_TIER_CURRENT"] = args.tier
     seed = int(os.environ.get("VERIF_SEED", "0"))
     t0 = time.time()
     try:
